@@ -21,7 +21,7 @@ use affinitree::pwl::afftree::AffTree;
 use affinitree::pwl::node::NodeState;
 use affinitree::tree::iter::{Bfs, DfsEdge, DfsPre, TraversalMut};
 use affinitree::verif_hooks::{self, LpFault};
-use ndarray::{Array1, Array2};
+use ndarray::{Array1, Array2, ShapeBuilder};
 use serde_json::{json, Map, Value};
 
 thread_local! {
@@ -80,7 +80,14 @@ fn get_cols(v: &Value) -> Option<usize> {
 // raw constructors: bypass from_mats' debug_assert on non-normal floats on purpose only
 // where the script says so ("raw": true); default goes through from_mats like a user would.
 fn aff_of(v: &Value) -> AffFunc {
-    AffFunc::from_mats(mat2(&v["mat"], get_cols(v)), vec1(&v["bias"]))
+    let m = mat2(&v["mat"], get_cols(v));
+    if v.get("layout").and_then(|l| l.as_str()) == Some("f") {
+        // same logical matrix in column-major (non-standard) memory layout
+        let mut f = Array2::<f64>::zeros(m.raw_dim().f());
+        f.assign(&m);
+        return AffFunc::from_mats(f, vec1(&v["bias"]));
+    }
+    AffFunc::from_mats(m, vec1(&v["bias"]))
 }
 
 fn poly_of(v: &Value) -> Polytope {
